@@ -49,12 +49,13 @@ MacroAddressing(cat, macros, prefix) ==
                         "macro " \o m \o " does not designate the entry it is named after") : m \in DOMAIN macros }
 
 \* ---- well-formedness of entries
-Tol5 == F("1e-5")
+\* the table gives mass fractions with six decimals: n fractions, each rounded by at most 5e-7, sum to 1 within n * 5e-7 (plus the rounding of the sum)
+HalfDigit6 == F("5.0000001e-7")
 NistEntryOK(r) ==
   /\ r.n = Len(r.el) /\ r.n = Len(r.mf) /\ r.n >= 1
   /\ \A i \in 1..(r.n - 1) : r.el[i] < r.el[i + 1]
   /\ \A i \in 1..r.n : r.el[i] >= 1 /\ r.el[i] <= ZMAX /\ FPos(r.mf[i])
-  /\ FClose(FSum(r.mf), One, Zero, Tol5)
+  /\ FClose(FSum(r.mf), One, Zero, FMul(FI(r.n), HalfDigit6))
   /\ FPos(r.rho)
 NuclideEntryOK(r) ==
   /\ r.A = r.Z + r.N
